@@ -6,7 +6,7 @@ CONSTANT Buggy_SetstateByPosition = FALSE
 CONSTANT Buggy_ArgsBySetOrder = FALSE
 CONSTANT Buggy_DigestSkipsShared = FALSE
 CONSTANT Buggy_CompiledLosesVars = FALSE
-CONSTANT Buggy_OptionsCrossed = TRUE
+CONSTANT Buggy_OptionsCrossed = FALSE
 CONSTANT Buggy_LegacyHashAssigns = TRUE
 CONSTANT Buggy_VarsByName = FALSE
 INIT Init
